@@ -111,6 +111,35 @@ fn pass_fuse(c: Vec<Node>) -> Vec<Node> {
             }
             out
         }
+        // seeded change (round 3): a cap on the fused block where the node at the boundary is
+        // consumed (j += 1) before the "block full" test and never emitted
+        Some("fuse_cap64") => {
+            let mut out: Vec<Node> = vec![];
+            let mut i = 0usize;
+            while i < c.len() {
+                if let Node::Stateless(first) = &c[i] {
+                    let mut fused = first.clone();
+                    let mut j = i + 1;
+                    while j < c.len() {
+                        if let Node::Stateless(more) = &c[j] {
+                            j += 1;
+                            if fused.len() + more.len() > 64 {
+                                break;
+                            }
+                            fused.extend(more.iter().cloned());
+                        } else {
+                            break;
+                        }
+                    }
+                    out.push(Node::Stateless(fused));
+                    i = j;
+                } else {
+                    out.push(c[i].clone());
+                    i += 1;
+                }
+            }
+            out
+        }
         // the seeded change the coordinator reported: fusion drops back-to-back repeats of one Arc
         Some("fuse_dedup") => vp::fuse(c)
             .into_iter()
@@ -197,6 +226,14 @@ fn pass_lift(c: Vec<Node>) -> Vec<Node> {
 }
 fn pass_drop_mid(c: Vec<Node>) -> Vec<Node> {
     match mutant().as_deref() {
+        // seeded change (round 3): also drops every non-empty Stateless block whose summed cost is 0
+        Some("drop_zero_cost") => vp::drop_mid(c)
+            .into_iter()
+            .filter(|n| match n {
+                Node::Stateless(ops) => ops.is_empty() || ops.iter().map(|o| u64::from(o.cost_hint())).sum::<u64>() != 0,
+                _ => true,
+            })
+            .collect(),
         Some("drop_terminal") => c.into_iter().filter(|n| !matches!(n, Node::Materialized(_))).collect(),
         Some("drop_first_only") => {
             let last = c.len().saturating_sub(1);
@@ -1591,6 +1628,94 @@ fn gen_reuse(seed: u64, tier: Tier, em: &mut Emitter) {
     }
 }
 
+/// x -> (2x + i) mod m: cheap, and every operator of a long chain matters for the result
+fn long_fun(i: usize) -> EFun {
+    EFun::Comp(
+        Box::new(EFun::Mul(2)),
+        Box::new(EFun::Comp(Box::new(EFun::Add(i as i64 + 1)), Box::new(EFun::Mod(1_000_003)))),
+    )
+}
+
+/// long runs of Stateless nodes (a cap / off-by-one in fusion shows only beyond 64 operators), and
+/// blocks made only of zero-cost operators
+fn gen_long(_seed: u64, tier: Tier, em: &mut Emitter) {
+    let kv = Shape::KV;
+    let rows = kv_rows4();
+    let src = j_src(kv, &rows);
+    let op = |i: usize, fl: (bool, bool, bool), cost: u8| j_op(kv, kv, b_mapv(&long_fun(i)), fl, cost);
+    let sizes: &[usize] = if tier == Tier::Thorough {
+        &[1, 31, 32, 33, 62, 63, 64, 65, 66, 67, 70, 96, 127, 128, 129, 130, 192, 193, 257]
+    } else {
+        &[63, 64, 65, 66, 70, 130]
+    };
+    for (k, &n) in sizes.iter().enumerate() {
+        let parts = [0usize, 2, 3][k % 3];
+        let per_node: Vec<Value> =
+            std::iter::once(src.clone()).chain((0..n).map(|i| j_st(vec![op(i, FFF, 10)]))).collect();
+        emit_syn_case(em, kv, &per_node, parts, &["long", "per_node"]);
+        emit_xf_case(em, kv, &per_node, parts, &["long", "apply_transform"]);
+        // one pre-fused block; a pre-fused block followed by single nodes
+        emit_syn_case(em, kv, &[src.clone(), j_st((0..n).map(|i| op(i, FFF, 10)).collect())], parts,
+                      &["long", "prefused"]);
+        let mut mixed = vec![src.clone(), j_st((0..n / 2).map(|i| op(i, FFF, 10)).collect())];
+        mixed.extend((n / 2..n).map(|i| j_st(vec![op(i, FFF, 10)])));
+        emit_syn_case(em, kv, &mixed, parts, &["long", "mixed"]);
+        // all value-only with equal costs: the block is sorted (stably) and nothing moves
+        if k % 2 == 0 {
+            let safe: Vec<Value> =
+                std::iter::once(src.clone()).chain((0..n).map(|i| j_st(vec![op(i, TTT, 3)]))).collect();
+            emit_xf_case(em, kv, &safe, parts, &["long", "apply_transform", "safe_equal_costs"]);
+        }
+        // a real program of n map steps through the step language
+        if n != 64 && n != 66 || tier == Tier::Thorough {
+            let data: Vec<Val> = (0..5).map(|i| Val::Int(3 * i + 1)).collect();
+            let steps: Vec<Step> = (0..n).map(|i| Step::Map(long_fun(i))).collect();
+            emit_prog_case(em, &Src::Vec(Shape::U, data), &steps, parts, &["long", "program"]);
+        }
+        // the same operator object n times
+        if n == 70 || tier == Tier::Thorough {
+            let mut reuse = vec![src.clone(), j_st(vec![op(0, FFF, 10)])];
+            reuse.extend((1..n).map(|_| j_st(vec![j_ref(0)])));
+            emit_xf_case(em, kv, &reuse, parts, &["long", "apply_transform", "reuse"]);
+        }
+    }
+    // two long runs separated by a barrier (each fused on its own), and by a consistent marker
+    for (a, b) in [(65usize, 66usize), (64, 70)] {
+        let mut nodes = vec![src.clone()];
+        nodes.extend((0..a).map(|i| j_st(vec![op(i, FFF, 10)])));
+        nodes.push(j_cv(&Cid::Sum, false));
+        nodes.extend((a..a + b).map(|i| j_st(vec![op(i, FFF, 10)])));
+        emit_syn_case(em, kv, &nodes, 2, &["long", "per_node", "two_runs"]);
+        emit_xf_case(em, kv, &nodes, 3, &["long", "apply_transform", "two_runs"]);
+    }
+    let mut pre = vec![src.clone()];
+    pre.extend((0..65).map(|i| j_st(vec![op(i, FFF, 10)])));
+    let val = prefix_value(&pre, kv).expect("prefix value");
+    let mut nodes = pre.clone();
+    nodes.push(j_mat(kv, &val));
+    nodes.extend((65..131).map(|i| j_st(vec![op(i, FFF, 10)])));
+    emit_syn_case(em, kv, &nodes, 2, &["long", "per_node", "around_marker"]);
+
+    // blocks made only of zero-cost operators: alone before a barrier, as the terminal step, between
+    // markers, next to a costly block (then the fused block has a non-zero sum)
+    let z = |i: usize, fl: (bool, bool, bool)| op(i, fl, 0);
+    for fl in [FFF, TTT] {
+        for parts in [0usize, 2] {
+            let t = &["zero_cost"];
+            emit_syn_case(em, kv, &[src.clone(), j_st(vec![z(0, fl)])], parts, t);
+            emit_xf_case(em, kv, &[src.clone(), j_st(vec![z(0, fl)])], parts, t);
+            emit_syn_case(em, kv, &[src.clone(), j_st(vec![z(0, fl), z(1, fl)]), j_cv(&Cid::Sum, false)], parts, t);
+            emit_xf_case(em, kv, &[src.clone(), j_st(vec![z(0, fl)]), j_st(vec![z(1, fl)]), j_cv(&Cid::Sum, false)], parts, t);
+            emit_xf_case(em, kv, &[src.clone(), j_st(vec![z(0, fl)]), json!(["gbk"]), j_cv(&Cid::Sum, true),
+                                   j_st(vec![z(1, fl)])], parts, t);
+            emit_syn_case(em, kv, &[src.clone(), j_st(vec![op(0, fl, 3)]), j_cv(&Cid::Sum, false), j_st(vec![z(1, fl)]),
+                                    j_st(vec![z(2, fl)])], parts, t);
+            emit_syn_case(em, kv, &[src.clone(), j_mat(kv, &rows), j_st(vec![z(0, fl)]), j_mat(kv, &rows)], parts, t);
+            emit_syn_case(em, kv, &[src.clone(), j_st(vec![z(0, fl)]), j_st(vec![op(1, fl, 2)])], parts, t);
+        }
+    }
+}
+
 fn generate(seed: u64, tier: Tier, em: &mut Emitter) {
     let _ = std::fs::create_dir_all(DIR);
     let _ = cg_out(&Cid::Sum);
@@ -1599,6 +1724,7 @@ fn generate(seed: u64, tier: Tier, em: &mut Emitter) {
     gen_barriers(seed, tier, em);
     gen_blocks(seed, tier, em);
     gen_reuse(seed, tier, em);
+    gen_long(seed, tier, em);
     gen_random_chains(seed, tier, em);
     gen_random_programs(seed, tier, em);
 }
